@@ -509,7 +509,12 @@ func (w *Web) Get(url string) (code int, body string, panicked string) {
 	if h == nil {
 		return 404, "404 page not found (no handler registered for this path)", ""
 	}
-	req, err := http.NewRequest("GET", "http://localhost"+url, nil)
+	// the requests the web UI's own scripts send: POST to save a configuration, DELETE to remove one
+	method := map[string]string{"/saveconfig": "POST", "/deleteconfig": "DELETE"}[path]
+	if method == "" {
+		method = "GET"
+	}
+	req, err := http.NewRequest(method, "http://localhost"+url, nil)
 	if err != nil {
 		return 400, "bad url: " + err.Error(), ""
 	}
